@@ -23,6 +23,7 @@ import (
 	"fmt"
 	"net"
 	"net/netip"
+	"os"
 	"syscall"
 	"time"
 	"unsafe"
@@ -106,7 +107,7 @@ func c12Boundary(x *engine.X, tier string) {
 		x.Defer(func() { pc.Close() })
 		fd = pc.RawFd()
 	} else {
-		mp, err = multicast.NewUDPPeer(ioc, "udp", "127.0.0.1:0")
+		mp, err = newOwnPeer(ioc, "127.0.0.1")
 		if err != nil {
 			engine.HarnessError("NewUDPPeer: %v", err)
 		}
@@ -354,15 +355,17 @@ func c12Member(x *engine.X, depth int) {
 		engine.HarnessError("NewIO: %v", err)
 	}
 	x.Defer(func() { ioc.Close() })
-	p, err := multicast.NewUDPPeer(ioc, "udp", ":0")
+	p, err := newOwnPeer(ioc, "")
 	if err != nil {
 		engine.HarnessError("NewUDPPeer: %v", err)
 	}
 	x.Defer(func() { p.Close() })
 	pfd := p.NextLayer().RawFd()
 	port := p.LocalAddr().Port
-	groups := []string{"224.0.1.77", "224.0.1.78"}
-	fenceGroup := [4]byte{224, 0, 1, 99}
+	// administratively scoped groups private to this worker process (see ownPort)
+	pid := os.Getpid()
+	groups := []string{fmt.Sprintf("239.%d.%d.77", (pid>>8)&255, pid&255), fmt.Sprintf("239.%d.%d.78", (pid>>8)&255, pid&255)}
+	fenceGroup := [4]byte{239, byte(pid >> 8), byte(pid), 99}
 	realSrc := fmt.Sprintf("%d.%d.%d.%d", ifaddr[0], ifaddr[1], ifaddr[2], ifaddr[3])
 	sources := []string{realSrc, "192.0.2.99"}
 	mk := func() int {
@@ -514,13 +517,13 @@ func c12Getters(x *engine.X) {
 		engine.HarnessError("NewIO: %v", err)
 	}
 	x.Defer(func() { ioc.Close() })
-	forms := []string{":0", "", "127.0.0.1:0"}
+	forms := []string{fmt.Sprintf(":%d", ownPort()), "", fmt.Sprintf("127.0.0.1:%d", ownPort())}
 	if ok {
 		forms = append(forms, fmt.Sprintf("%d.%d.%d.%d:0", ifaddr[0], ifaddr[1], ifaddr[2], ifaddr[3]), "224.0.1.80:0")
 	}
 	form := forms[x.Pick(len(forms), "bind form")]
 	if form == "" {
-		form = ":" + fmt.Sprint(20000+kern.Gettid()%20000)
+		form = fmt.Sprintf(":%d", ownPort())
 	}
 	p, err := multicast.NewUDPPeer(ioc, "udp", form)
 	if err != nil {
@@ -613,7 +616,7 @@ func c12Getters(x *engine.X) {
 func c12Buffer(x *engine.X) {
 	ioc, _ := sonic.NewIO()
 	x.Defer(func() { ioc.Close() })
-	p, err := multicast.NewUDPPeer(ioc, "udp", "127.0.0.1:0")
+	p, err := newOwnPeer(ioc, "127.0.0.1")
 	if err != nil {
 		engine.HarnessError("NewUDPPeer: %v", err)
 	}
